@@ -121,6 +121,9 @@ def simplify(node, tu):
         args = [simplify(a, tu) for a in ks[1:]]
         if name is None:
             return E('call', ty, [simplify(ks[0], tu)] + args, node, None)
+        inl = inline_pure(name, args, tu, ty, node)
+        if inl is not None:
+            return inl
         return E('call', ty, args, node, name)
     if k == 'MemberExpr':
         return E('member', ty, [simplify(ks[0], tu)], node, (node.get('name'), bool(node.get('isArrow'))))
@@ -141,6 +144,105 @@ def simplify(node, tu):
              'PredefinedExpr'):
         return E('other', ty, [simplify(c, tu) for c in ks if c.get('kind')], node, k)
     raise AnalysisBroken('ctyperules: unsupported expression kind %s at %s' % (k, astdb.loc_str(node)))
+
+
+def subst(e, env):
+    """replace variables by expressions"""
+    if e.k == 'var' and e.x in env:
+        return env[e.x]
+    if not e.a:
+        return e
+    return E(e.k, e.ty, [subst(c, env) for c in e.a], e.node, e.x)
+
+
+_INLINE_DEPTH = [0]
+
+
+def inline_pure(name, args, tu, ty, node):
+    """A call to a runtime-header inline function whose body is only `const` locals, guards of the form
+    `if (c) { trap(K); }` / `if (c) { return e; }` (optionally with else) and a final `return e` is the same as the macro it may have
+    replaced: return its body as one conditional expression over the arguments.  None if the body has another shape."""
+    f = tu.functions.get(name)
+    if f is None or not (astdb.file_of(f) or '').endswith('w2c2_base.h') or _INLINE_DEPTH[0] > 4:
+        return None
+    body = astdb.fn_body(f)
+    params = astdb.fn_params(f)
+    if body is None or len(params) != len(args):
+        return None
+    # memory access / atomic helpers are summarised by the memory rules, not inlined
+    if any('wasmMemory' in astdb.qtype(p) or 'wasmTable' in astdb.qtype(p) for p in params) or \
+            any(n.get('kind') in ('AtomicExpr', 'MemberExpr') for n in astdb.walk(body)):
+        return None
+    env = {}
+    for p, a in zip(params, args):
+        pty = tu.desugar(astdb.qtype(p))
+        env[p.get('name')] = a if a.ty == pty else E('cast', pty, [a], a.node, 'IntegralCast' if tinfo(pty)[0] == 'int' and tinfo(a.ty)[0] == 'int' else 'Conversion')
+
+    def conv(stmts):
+        if not stmts:
+            return None
+        st = stmts[0]
+        k = st.get('kind')
+        rest = stmts[1:]
+        if k == 'NullStmt':
+            return conv(rest)
+        if k == 'DeclStmt':
+            for d in kids(st):
+                if d.get('kind') != 'VarDecl' or not d.get('init') or 'const' not in astdb.qtype(d).split('*')[-1] and False:
+                    return None
+                ini = [c for c in kids(d) if c.get('kind')]
+                if not ini:
+                    return None
+                v = subst(simplify(ini[-1], tu), env)
+                dty = tu.desugar(astdb.qtype(d))
+                env[d.get('name')] = v if v.ty == dty else E('cast', dty, [v], d, 'IntegralCast')
+            return conv(rest)
+        if k == 'ReturnStmt':
+            ex = [c for c in kids(st) if c.get('kind')]
+            return subst(simplify(ex[0], tu), env) if ex else None
+        if k == 'CompoundStmt':
+            return conv([c for c in st.get('inner', []) if c.get('kind')] + rest)
+        if k == 'IfStmt':
+            inner = st['inner']
+            c = subst(simplify(inner[0], tu), env)
+            then = arm(inner[1])
+            if then is None:
+                return None
+            if len(inner) > 2:
+                els = arm(inner[2])
+                if els is None:
+                    return None
+                return E('cond', ty, [c, then, els], st)
+            tail = conv(rest)
+            if tail is None:
+                return None
+            return E('cond', ty, [c, then, tail], st)
+        return None
+
+    def arm(st):
+        """a guard arm: `{ trap(K); }` -> (trap(K), 0)  |  `{ return e; }` -> e"""
+        stmts = [c for c in st.get('inner', []) if c.get('kind')] if st.get('kind') == 'CompoundStmt' else [st]
+        if len(stmts) == 1 and stmts[0].get('kind') == 'CallExpr' and astdb.callee_name(stmts[0]) == 'trap':
+            call = simplify(stmts[0], tu)
+            return E('comma', ty, [subst(call, env), E('const', 'int', (), stmts[0], 0)], stmts[0])
+        return conv(stmts)
+    _INLINE_DEPTH[0] += 1
+    try:
+        for n in astdb.walk(body):
+            if n.get('kind') in ('WhileStmt', 'ForStmt', 'DoStmt', 'GotoStmt', 'SwitchStmt'):
+                return None
+            if n.get('kind') in ('BinaryOperator', 'CompoundAssignOperator') and (n.get('opcode') == '=' or n.get('kind') == 'CompoundAssignOperator'):
+                return None
+            if n.get('kind') == 'CallExpr' and astdb.callee_name(n) in ('memcpy', 'memmove', 'memset', '__builtin_memcpy'):
+                return None
+        out = conv([c for c in body.get('inner', []) if c.get('kind')])
+    except AnalysisBroken:
+        out = None
+    finally:
+        _INLINE_DEPTH[0] -= 1
+    if out is None:
+        return None
+    return out if out.ty == ty else E('cast', ty, [out], node, 'NoOp')
 
 
 def statements(fdecl):
